@@ -72,6 +72,11 @@ func useTransaction(ctx context.Context, engine *Engine, lock bool, fn func(*Tra
 	if ok {
 		txn := sess.Transaction()
 		if txn != nil {
+			// a session transaction cannot be used after the engine is closed
+			if !engine.tomb.Alive() {
+				return nil, ErrEngineClosed
+			}
+
 			return fn(txn)
 		}
 	}
